@@ -524,7 +524,74 @@ fn main() {
             covers_case(&mut ctx, &s2, 2, true, &format!("{tag} k=2"));
         }
     }
+    // (5) covers(ds,k) beyond the reach of the count oracle (count clause OFF): every entry
+    //     must still be a complete, connected, degree-preserving covering with <= k sheets
+    //     and uniform fibres, entries pairwise non-isomorphic over ds.  First the four
+    //     symbols on which a seeded change of the low-index enumeration (derived_table
+    //     queueing each row once) produced an extra non-covering entry, then seeded
+    //     samples of 2D symbols with 6-8 chambers and 3D symbols with 3-4 chambers.
+    {
+        let regress: [(&str, usize, bool); 4] = [
+            ("<1.1:8:1 2 3 4 5 6 8,1 3 5 7 8,2 4 6 8:3 4 4 3,8>", 4, true),
+            ("<1.1:4 3:2 4,2 4,3 4,2 4:4 4,4,6>", 4, true),
+            ("<1.1:4 3:1 4 3,2 4,1 4 3,3 4:4,4,4 3>", 4, true),
+            ("<1.1:3:1 2 3,1 3,2 3:3 10,3>", 9, false),
+        ];
+        for (txt, k, quick) in regress {
+            let t = parse_symbol(txt);
+            if quick || th {
+                covers_case(&mut ctx, &t, k, false, &format!("nt regress lowindex dim={} size={} k={}", t.dim, t.size, k));
+            }
+            if th && k < 6 {
+                covers_case(&mut ctx, &t, k + 1, false, &format!("nt regress lowindex dim={} size={} k={}", t.dim, t.size, k + 1));
+            }
+        }
+        let (n2, n3) = if th { (240, 160) } else { (36, 24) };
+        for j in 0..(n2 + n3) {
+            let (dim, n) = if j < n2 { (2, 6 + rng.below(3)) } else { (3, 3 + rng.below(2)) };
+            if let Some(t) = random_dset(&mut rng, dim, n, true) {
+                let s = random_vs(&t, &mut rng, &[1, 2, 3, 4, 6]);
+                let k = if th { 5 + j % 2 } else { 4 };
+                let k = if dim == 3 && th { 5 } else { k };
+                covers_case(&mut ctx, &s, k, false, &format!("nt large nocount dim={} size={} k={}", dim, n, k));
+            }
+        }
+    }
     ctx.finish();
+}
+
+/// the text form `<a.b:size [dim]:op_0,...,op_dim:m_01-orbits,...>` read by a few lines of our
+/// own (images listed for the chambers not yet paired; one degree m per (i,i+1)-orbit in
+/// order of its least chamber; v = m / r)
+fn parse_symbol(txt: &str) -> Tab {
+    let body = txt.trim().trim_start_matches('<').trim_end_matches('>');
+    let parts: Vec<&str> = body.split(':').collect();
+    assert_eq!(parts.len(), 4, "symbol text");
+    let head: Vec<usize> = parts[1].split_whitespace().map(|x| x.parse().unwrap()).collect();
+    let (size, dim) = (head[0], if head.len() > 1 { head[1] } else { 2 });
+    let mut t = Tab { size, dim, op: vec![vec![0; size + 1]; dim + 1], v: vec![vec![0; size + 1]; dim] };
+    for (i, list) in parts[2].split(',').enumerate() {
+        let mut nums = list.split_whitespace().map(|x| x.parse::<usize>().unwrap());
+        for d in 1..=size {
+            if t.op[i][d] == 0 {
+                let e = nums.next().expect("op entry");
+                t.op[i][d] = e;
+                t.op[i][e] = d;
+            }
+        }
+        assert!(nums.next().is_none());
+    }
+    for (i, list) in parts[3].split(',').enumerate() {
+        let mut nums = list.split_whitespace().map(|x| x.parse::<usize>().unwrap());
+        for d in t.orbit_reps2(i) {
+            let m = nums.next().expect("degree entry");
+            let r = t.r(i, i + 1, d);
+            assert_eq!(m % r, 0, "degree is a multiple of the orbit length");
+            t.set_v_orbit(i, d, m / r);
+        }
+        assert!(nums.next().is_none());
+    }
+    t
 }
 
 trait OrientedProbe {
